@@ -34,6 +34,10 @@ type c13Case struct {
 	// Ghosts (blocking / deadline, capacity taken): that many earlier callers blocked and gave up (cancelled) before the
 	// case's caller arrives - a limiter that has been saturated for a long time
 	Ghosts int `json:"ghosts,omitempty"`
+	// Steals (blocking / deadline, capacity taken): right after the caller has blocked it is woken that many times in a row while the
+	// token stays taken, all at the arrival instant - it finds nothing and goes back to waiting each time (what a caller
+	// sees that keeps losing the race for a contended token)
+	Steals int `json:"steals,omitempty"`
 }
 
 func genC13(t *rapid.T) c13Case {
@@ -117,7 +121,10 @@ func genC13(t *rapid.T) c13Case {
 	if !c.Free && (c.Stack.Kind == "blocking" || c.Stack.Kind == "deadline") && c.Stack.DeadlineFar != 4 && rapid.IntRange(0, 19).Draw(t, "ghosts") == 0 {
 		c.Ghosts = rapid.SampledFrom([]int{3, 100, 1023, 1024, 1025, 1500}).Draw(t, "ghostN")
 	}
-	if !c.Free && !c.Rival && c.HasRel && c.Stack.Kind != "pool" && rapid.IntRange(0, 2).Draw(t, "noCap") == 0 {
+	if !c.Free && !c.Rival && (c.Stack.Kind == "blocking" || c.Stack.Kind == "deadline") && c.Stack.DeadlineFar != 4 && rapid.IntRange(0, 9).Draw(t, "steals") == 0 {
+		c.Steals = rapid.SampledFrom([]int{1, 3, 31, 32, 33, 63, 64, 65, 66, 100, 130}).Draw(t, "stealN")
+	}
+	if !c.Free && !c.Rival && c.Steals == 0 && c.HasRel && c.Stack.Kind != "pool" && rapid.IntRange(0, 2).Draw(t, "noCap") == 0 {
 		c.NoCap = true
 		c.Stack.Limit = 2
 	}
@@ -219,6 +226,15 @@ func runC13InBubble(c c13Case) (out kit.Outcome) {
 			w.start(caller)
 			if rival != nil {
 				w.start(rival)
+			}
+			if wk, ok := st.lim.(interface{ VerifWake() }); ok && c.Steals > 0 && holder != nil && busyAtArrival >= c.Stack.Limit {
+				// a wake-up that finds the token taken again is, from the waiter's side, a wake-up without capacity:
+				// produced here by waking the waiters while the holder keeps its token (same arrival instant)
+				synctest.Wait()
+				for k := 0; k < c.Steals; k++ {
+					wk.VerifWake()
+					synctest.Wait()
+				}
 			}
 		}
 		synctest.Wait()
@@ -417,6 +433,9 @@ func runC13InBubble(c c13Case) (out kit.Outcome) {
 	}
 	if c.Ghosts >= 1000 {
 		out.Labels = append(out.Labels, "after->=1000-abandoned-waits")
+	}
+	if c.Steals >= 64 {
+		out.Labels = append(out.Labels, "after->=64-lost-wake-ups")
 	}
 	if c.Stack.DeadlineFar > 0 {
 		out.Labels = append(out.Labels, "deadline-far-future")
